@@ -610,7 +610,8 @@ pub fn run(id: &str, tier: Tier) -> i32 {
         "wall_s": wall,
         "violations": n_real_total,
     });
-    let ev_dir = crate::verif_root().join("evidence");
+    // (selftest.sh redirects the evidence of its runs on deliberately broken trees)
+    let ev_dir = std::env::var_os("VERIF_EVIDENCE_DIR").map(PathBuf::from).unwrap_or_else(|| crate::verif_root().join("evidence"));
     let _ = std::fs::create_dir_all(&ev_dir);
     let _ = std::fs::write(ev_dir.join(format!("{id}.json")), serde_json::to_string_pretty(&evidence).unwrap());
 
